@@ -98,6 +98,9 @@ GROUPS["vm"] = {
         H("k_push_false", ["C02", "C11"], bound=CW + "False", tprops=["C01", "C05"]),
         H("k_pop_sets_result", ["C02", "C11"], bound=CW + "Pop", tprops=["C01", "C05"]),
         H("k_halt_and_prologue", ["C02", "C11", "C17"], bound=CW + "run() from an arbitrary retained ip/bp/frame 0/globals", tprops=["C01", "C05"]),
+        H("k_halt_hands_over_result", ["C03", "C04", "C02"], bound=CW + "Pop; Halt: GC::untrace (recorder) is called once, with the value returned", tprops=["C01"]),
+        H("k_error_exit_hands_over_nothing", ["C04", "C03"], bound=CW + "Not on any non-boolean immediate: Err, no untrace, no collection", tprops=["C01"]),
+        H("k_prologue_adopts_constants", ["C03", "C04"], bound="3 constants (immediate, float, immediate): GC::maybe_trace (recorder) sees each once, in order", tprops=["C01"]),
         H("k_const", ["C02", "C12", "C10"], bound=CW + "1-3 constants, any index in range", tprops=["C01", "C05"]),
         H("k_const_string_is_copied", ["C02", "C10", "C13"], bound="string constant 'ab'", tprops=["C01"]),
         H("k_set_global_existing", ["C02", "C09", "C17"], bound=CW + "2 globals, index < 2", tprops=["C01", "C05", "C10"]),
@@ -113,8 +116,8 @@ GROUPS["vm"] = {
         H("k_negate", ["C02", "C05"], bound=CW + "any immediate operand incl. MIN_INT", tprops=["C01", "C06"]),
         H("k_negate_float", ["C02"], bound="any f64 bit pattern", tprops=["C01", "C06"]),
         H("k_call", ["C02", "C05", "C12"], bound=CW + "0-2 arguments, callee any immediate, num_locals <= arity+3", tprops=["C01"]),
-        H("k_return_value", ["C02", "C12", "C03"], bound=CW + "2-3 frames, any callee base <= 3; records the root slices given to the collector", tprops=["C01", "C05", "C04"]),
-        H("k_return", ["C02", "C12", "C03"], bound=CW + "2-3 frames, any callee base <= 4; records the root slices given to the collector", tprops=["C01", "C05", "C04"]),
+        H("k_return_value", ["C02", "C12", "C03", "C04"], bound=CW + "2-3 frames, any callee base <= 3; records the root slices given to the collector", tprops=["C01", "C05", "C04"]),
+        H("k_return", ["C02", "C12", "C03", "C04"], bound=CW + "2-3 frames, any callee base <= 4; records the root slices given to the collector", tprops=["C01", "C05", "C04"]),
         H("k_array_0", ["C02", "C13"], bound=CW + "Array 0", tprops=["C01", "C05"]),
         H("k_array_2", ["C02", "C13"], bound=CW + "Array 2", tprops=["C01", "C05"]),
         H("k_array_3", ["C02", "C13"], bound=CW + "Array 3", tprops=["C01", "C05"]),
@@ -172,16 +175,11 @@ GROUPS["gc"] = {
     "stubs": ["crate bitvec -> 80-line Vec<bool> model with bounds-CHECKED get_unchecked/set_unchecked (overlay [patch.crates-io]; "
               "that the real crate implements a vector of bits is trusted)"],
     "harnesses": [
-        H("c03_floats_keep_none", ["C03", "C04"], timeout=300, bound=GC_B + "2 floats, no root"),
-        H("c03_floats_keep_a", ["C03", "C04"], timeout=300, bound=GC_B + "2 floats, first rooted (roots in 2 slices, an immediate among them)"),
-        H("c03_floats_keep_b", ["C03", "C04"], timeout=300, bound=GC_B + "2 floats, second rooted"),
-        H("c03_floats_keep_both", ["C03", "C04"], timeout=300, bound=GC_B + "2 floats, both rooted"),
-        H("c03_list_keeps_its_elements", ["C03", "C04"], timeout=300, bound=GC_B + "list [float, int, text] + loose float; root = list; then no roots"),
-        H("c03_alias_through_two_lists", ["C03"], timeout=300, bound=GC_B + "one float in two lists, one list rooted"),
-        H("c03_cycle_and_nesting", ["C03", "C04"], timeout=300, bound=GC_B + "list containing itself and a nested list"),
-        H("c03_store_into_survivor_then_collect", ["C03"], timeout=300, bound=GC_B + "two collections with a store into the survivor in between"),
-        H("c04_untrace_hands_over", ["C04", "C03"], timeout=300, bound=GC_B + "result graph handed to the caller, later store, two collections, caller frees"),
-        H("c04_adopt_and_release", ["C04"], timeout=300, bound="two collectors, adoption of a foreign float, immediates never adopted"),
+        H("c03_constructors_register", ["C03", "C04"], timeout=300, bound="Object::float (any bit pattern), Object::string, Object::array with one collector: one entry each, in order"),
+        H("c04_maybe_trace_only_heap", ["C04", "C03"], timeout=300, bound="null, bool, any i32, any function descriptor are not adopted; a float of another collector is, once"),
+        H("c04_untrace_flat", ["C04"], timeout=300, bound="two floats + one foreign float: untrace takes out exactly the given object, twice / unknown is a no-op"),
+        H("c03_rooted_float_survives", ["C03"], timeout=300, bound="one float (any bit pattern), rooted in the second of two root slices among immediates"),
+        H("c04_unrooted_float_released", ["C04"], timeout=600, optional=True, bound="one float, no root: released by the collection, a second collection and destroy release nothing more (attempted)"),
     ],
 }
 
@@ -196,35 +194,54 @@ GROUPS["lexer"] = {
               "(that the Unicode tables of core are right is trusted)",
               "core::str::slice_error_fail -> panic (a slice at a non-boundary is reported as a failure)"],
     "harnesses": [
-        H("c08_first_two_char_ops", ["C08", "C05"], bound=LX + "0..=2 symbolic ASCII bytes (every length), 1 symbolic byte already consumed; first in = ! < > & |"),
-        H("c08_first_punct_a", ["C08", "C05"], bound=LX + "2 symbolic ASCII bytes; first in ; , . ( ) { }"),
-        H("c08_first_punct_b", ["C08", "C05"], bound=LX + "2 symbolic ASCII bytes; first in [ ] - + * ^ %"),
-        H("c08_first_illegal_ascii", ["C08", "C05"], bound=LX + "2 symbolic ASCII bytes; first in # $ ' : ? @ \\ ` ~ NUL BEL ESC DEL"),
-        H("c08_first_illegal_nonascii", ["C08", "C05"], bound=LX + "2 symbolic ASCII bytes; first in EURO SIGN, REGIONAL INDICATOR N (4 bytes), NBSP, ARABIC-INDIC 3, SUPERSCRIPT 2"),
-        H("c08_first_digit", ["C08", "C05"], timeout=300, bound=LX + "0..=3 symbolic ASCII bytes (every length); first in 0 5 9"),
-        H("c08_first_digit_k4", ["C08"], "thorough", 900, True, bound=LX + "0..=4 symbolic ASCII bytes; first in 1 8"),
-        H("c08_first_quote", ["C08", "C05"], timeout=300, bound="opening quote, then 0..=4 symbolic ASCII bytes (escapes, closing quote or none)"),
-        H("c08_first_letter_kw_a", ["C08", "C05"], timeout=300, bound=LX + "0..=3 symbolic ASCII bytes; first in a s j (keyword initials)"),
-        H("c08_first_letter_kw_b", ["C08", "C05"], timeout=300, bound=LX + "0..=3 symbolic ASCII bytes; first in n z f v (keyword initials)"),
-        H("c08_first_letter_other", ["C08", "C05"], timeout=300, bound=LX + "0..=3 symbolic ASCII bytes; first in b Z _"),
-        H("c08_first_letter_nonascii", ["C08", "C05"], timeout=300, bound=LX + "0..=3 symbolic ASCII bytes; first in e-acute, pi, OMEGA"),
-        H("c08_first_letter_k4", ["C08"], "thorough", 900, True, bound=LX + "0..=4 symbolic ASCII bytes; first in a x"),
-        H("c08_keyword_long_a", ["C08"], timeout=300, bound="antwoord / antwoor / volgende / volgend + 2 symbolic ASCII bytes"),
-        H("c08_keyword_long_b", ["C08"], timeout=300, bound="functie / functi / zolang / zolan / anders / ander + 2 symbolic ASCII bytes"),
-        H("c08_keyword_short", ["C08"], timeout=300, bound="als stel stop nee ja Als jA + 2 symbolic ASCII bytes"),
-        H("c08_ident_inner", ["C08"], timeout=300, bound="8 two-character identifier starts (digit, underscore, non-ASCII letter / non-letter inside) + 2 symbolic ASCII bytes"),
-        H("c08_number_inner", ["C08"], timeout=300, bound="6 number starts (one / two decimal points, non-ASCII after) + 3 symbolic ASCII bytes"),
-        H("c08_string_inner", ["C08"], timeout=300, bound="7 string starts (escaped quote, escaped backslash, non-ASCII content) + 3 symbolic ASCII bytes"),
-        H("c08_ws_ascii_a", ["C08", "C05"], timeout=300, bound="space/tab/newline x 5 followers + 1 symbolic ASCII byte"),
-        H("c08_ws_ascii_b", ["C08", "C05"], timeout=300, bound="CR/VT/FF x 5 followers + 1 symbolic ASCII byte"),
-        H("c08_ws_unicode_a", ["C08"], timeout=300, bound="U+0085/U+200E/U+200F x 5 followers + 1 symbolic ASCII byte"),
-        H("c08_ws_unicode_b", ["C08"], timeout=300, bound="U+2028/U+2029/mixed run x 5 followers + 1 symbolic ASCII byte"),
-        H("c08_comment_to_eol", ["C08", "C05"], timeout=300, bound="5 comment shapes x 5 followers + 1 symbolic ASCII byte"),
-        H("c08_comment_to_eof", ["C08", "C05"], timeout=300, bound="4 comments ending at the end of the text"),
-        H("c08_comment_symbolic_body", ["C08"], timeout=300, bound="// + 2 symbolic non-newline ASCII bytes + newline + x1"),
-        H("c08_stream_a", ["C08"], timeout=300, bound="4 whole texts (declaration, comparisons, logic) with symbolic letters/digits at marked positions; every token"),
-        H("c08_stream_b", ["C08"], timeout=300, bound="4 whole texts (call/index, string, arithmetic, comment) with symbolic letters/digits; every token"),
-        H("c08_stream_c", ["C08"], timeout=300, bound="3 whole texts (if/else, loop, operators) with symbolic letters/digits; every token"),
+        H("c08_first_two_char_ops", ["C08", "C05"], timeout=300, bound="first character in '=', '!', '<', '>', '&', '|' (enumerated), then 0..=2 symbolic ASCII bytes (every length); one symbolic byte already consumed"),
+        H("c08_first_punct_a", ["C08", "C05"], timeout=300, bound="first character in ';', ',', '.', '(', ')', '{', '}' (enumerated), then 0..=2 symbolic ASCII bytes (every length); one symbolic byte already consumed"),
+        H("c08_first_punct_b", ["C08", "C05"], timeout=300, bound="first character in '[', ']', '-', '+', '*', '^', '%' (enumerated), then 0..=2 symbolic ASCII bytes (every length); one symbolic byte already consumed"),
+        H("c08_first_illegal_ascii", ["C08", "C05"], timeout=300, bound="first character in '#', '$', '\\'', ':', '?', '@', '\\\\', '`', '~', '\\u{0}', '\\u{7}', '\\u{1b}', '\\u{7f}' (enumerated), then 0..=2 symbolic ASCII bytes (every length); one symbolic byte already consumed"),
+        H("c08_first_illegal_nonascii", ["C08", "C05"], timeout=300, bound="first character in '€', '🇳', '\\u{00A0}', '٣', '²' (enumerated), then 0..=2 symbolic ASCII bytes (every length); one symbolic byte already consumed"),
+        H("c08_first_digit_0", ["C08", "C05"], timeout=300, bound="first character in '0' (enumerated), then 0..=3 symbolic ASCII bytes (every length); one symbolic byte already consumed"),
+        H("c08_first_digit_9", ["C08"], timeout=300, bound="first character in '9' (enumerated), then 0..=2 symbolic ASCII bytes (every length); one symbolic byte already consumed"),
+        H("c08_first_digit_5_k4", ["C08"], "thorough", 900, True, bound="first character in '5' (enumerated), then 0..=4 symbolic ASCII bytes (every length); one symbolic byte already consumed"),
+        H("c08_first_quote", ["C08", "C05"], timeout=300, bound='first character in \'\\"\' (enumerated), then 0..=4 symbolic ASCII bytes (every length); one symbolic byte already consumed'),
+        H("c08_first_letter_a", ["C08", "C05"], timeout=300, bound="first character in 'a' (enumerated), then 0..=3 symbolic ASCII bytes (every length); one symbolic byte already consumed"),
+        H("c08_first_letter_s", ["C08"], timeout=300, bound="first character in 's' (enumerated), then 0..=3 symbolic ASCII bytes (every length); one symbolic byte already consumed"),
+        H("c08_first_letter_n", ["C08"], timeout=300, bound="first character in 'n' (enumerated), then 0..=3 symbolic ASCII bytes (every length); one symbolic byte already consumed"),
+        H("c08_first_letter_j", ["C08"], timeout=300, bound="first character in 'j' (enumerated), then 0..=2 symbolic ASCII bytes (every length); one symbolic byte already consumed"),
+        H("c08_first_letter_z", ["C08"], timeout=300, bound="first character in 'z' (enumerated), then 0..=2 symbolic ASCII bytes (every length); one symbolic byte already consumed"),
+        H("c08_first_letter_f", ["C08"], timeout=300, bound="first character in 'f' (enumerated), then 0..=2 symbolic ASCII bytes (every length); one symbolic byte already consumed"),
+        H("c08_first_letter_v", ["C08"], timeout=300, bound="first character in 'v' (enumerated), then 0..=2 symbolic ASCII bytes (every length); one symbolic byte already consumed"),
+        H("c08_first_letter_b", ["C08"], timeout=300, bound="first character in 'b' (enumerated), then 0..=2 symbolic ASCII bytes (every length); one symbolic byte already consumed"),
+        H("c08_first_letter_cap", ["C08"], timeout=300, bound="first character in 'Z' (enumerated), then 0..=2 symbolic ASCII bytes (every length); one symbolic byte already consumed"),
+        H("c08_first_underscore", ["C08"], timeout=300, bound="first character in '_' (enumerated), then 0..=2 symbolic ASCII bytes (every length); one symbolic byte already consumed"),
+        H("c08_first_letter_eacute", ["C08"], timeout=300, bound="first character in 'é' (enumerated), then 0..=2 symbolic ASCII bytes (every length); one symbolic byte already consumed"),
+        H("c08_first_letter_pi", ["C08"], timeout=300, bound="first character in 'π' (enumerated), then 0..=2 symbolic ASCII bytes (every length); one symbolic byte already consumed"),
+        H("c08_first_letter_x_k4", ["C08"], "thorough", 900, True, bound="first character in 'x' (enumerated), then 0..=4 symbolic ASCII bytes (every length); one symbolic byte already consumed"),
+        H("c08_keyword_antwoord", ["C08"], timeout=300, bound='token starts "antwoord", "antwoor", then 0..=2 symbolic ASCII bytes (every length); one symbolic byte already consumed'),
+        H("c08_keyword_volgende", ["C08"], timeout=300, bound='token starts "volgende", "volgend", then 0..=2 symbolic ASCII bytes (every length); one symbolic byte already consumed'),
+        H("c08_keyword_functie", ["C08"], timeout=300, bound='token starts "functie", "functi", then 0..=2 symbolic ASCII bytes (every length); one symbolic byte already consumed'),
+        H("c08_keyword_zolang", ["C08"], timeout=300, bound='token starts "zolang", "zolan", then 0..=2 symbolic ASCII bytes (every length); one symbolic byte already consumed'),
+        H("c08_keyword_anders", ["C08"], timeout=300, bound='token starts "anders", "ander", then 0..=2 symbolic ASCII bytes (every length); one symbolic byte already consumed'),
+        H("c08_keyword_als_stel", ["C08"], timeout=300, bound='token starts "als", "stel", then 0..=2 symbolic ASCII bytes (every length); one symbolic byte already consumed'),
+        H("c08_keyword_stop_nee", ["C08"], timeout=300, bound='token starts "stop", "nee", then 0..=2 symbolic ASCII bytes (every length); one symbolic byte already consumed'),
+        H("c08_keyword_ja_case", ["C08"], timeout=300, bound='token starts "ja", "Als", "jA", then 0..=2 symbolic ASCII bytes (every length); one symbolic byte already consumed'),
+        H("c08_ident_inner_a", ["C08"], timeout=300, bound='token starts "a1", "a_", "aé", then 0..=2 symbolic ASCII bytes (every length); one symbolic byte already consumed'),
+        H("c08_ident_inner_b", ["C08"], timeout=300, bound='token starts "éa", "a€", "a\\u{2028}", then 0..=2 symbolic ASCII bytes (every length); one symbolic byte already consumed'),
+        H("c08_ident_inner_c", ["C08"], timeout=300, bound='token starts "x٣", "a²", then 0..=2 symbolic ASCII bytes (every length); one symbolic byte already consumed'),
+        H("c08_number_inner_a", ["C08"], timeout=300, bound='token starts "1.", "1.5", "10", then 0..=2 symbolic ASCII bytes (every length); one symbolic byte already consumed'),
+        H("c08_number_inner_b", ["C08"], timeout=300, bound='token starts "1.2.", "0é", "7\\u{2028}", then 0..=2 symbolic ASCII bytes (every length); one symbolic byte already consumed'),
+        H("c08_string_inner_a", ["C08"], timeout=300, bound='token starts "\\"\\\\\\"", "\\"\\\\\\\\", "\\"é", then 0..=2 symbolic ASCII bytes (every length); one symbolic byte already consumed'),
+        H("c08_string_inner_b", ["C08"], timeout=300, bound='token starts "\\"€\\"", "\\"a\\\\", "\\"\\\\n", then 0..=2 symbolic ASCII bytes (every length); one symbolic byte already consumed'),
+        H("c08_string_inner_c", ["C08"], timeout=300, bound='token starts "\\"\\\\\\\\\\\\\\\\", "\\"\\\\\\\\\\\\", then 0..=2 symbolic ASCII bytes (every length); one symbolic byte already consumed'),
+        H("c08_ws_ascii_a", ["C08", "C05"], timeout=300, bound='skipped part in " ", "\\t", "\\n" x follower in "", "a", "1", "=", then 0..=1 symbolic ASCII bytes'),
+        H("c08_ws_ascii_b", ["C08"], timeout=300, bound='skipped part in "\\r", "\\u{b}", "\\u{c}" x follower in "", "a", "1", "=", then 0..=1 symbolic ASCII bytes'),
+        H("c08_ws_unicode_a", ["C08"], timeout=300, bound='skipped part in "\\u{0085}", "\\u{200E}", "\\u{200F}" x follower in "", "a", "1", ";", then 0..=1 symbolic ASCII bytes'),
+        H("c08_ws_unicode_b", ["C08"], timeout=300, bound='skipped part in "\\u{2028}", "\\u{2029}", " \\t\\r\\n " x follower in "", "\\"", "/", "é", then 0..=1 symbolic ASCII bytes'),
+        H("c08_comment_to_eol_a", ["C08", "C05"], timeout=300, bound='skipped part in "//\\n", "// x\\n" x follower in "", "a", "1", "/", ";", then 0..=1 symbolic ASCII bytes'),
+        H("c08_comment_to_eol_b", ["C08"], timeout=300, bound='skipped part in "//é€\\n", "///\\n", "//\\n//\\n" x follower in "", "a", "\\"", then 0..=1 symbolic ASCII bytes'),
+        H("c08_comment_to_eof", ["C08", "C05"], timeout=300, bound='skipped part in "//", "// x", "//\\"", "// stel", "///", "//é" x follower in "", then 0..=0 symbolic ASCII bytes'),
+        H("c08_stream_a", ["C08"], timeout=300, bound='whole concrete texts ["stel a1=10;", "a<=b>=c", "x==y!=z", "p&&q||!r"]: every token (validates the reference tokenizer and the position bookkeeping)'),
+        H("c08_stream_b", ["C08"], timeout=300, bound='whole concrete texts ["f(a,b)[0]", "\\"a\\\\\\"\\" + s", "1.5*2-3/4", "a//c\\nb"]: every token (validates the reference tokenizer and the position bookkeeping)'),
+        H("c08_stream_c", ["C08"], timeout=300, bound='whole concrete texts ["als a{1}anders{2}", "zolang ja{stop}", "a=-1%2^3 é"]: every token (validates the reference tokenizer and the position bookkeeping)'),
     ],
 }
 
